@@ -25,8 +25,10 @@ def stable_pass():
                 ok.add(f"{tc.get('classname')}::{tc.get('name')}")
     return [t for t in base['stable_pass'] if t not in ok]
 results = {}
+STAGING = os.environ.get('STAGING', f'{V}/seeded/_staging')
+SUFFIX = os.environ.get('SUFFIX', '')
 only = sys.argv[1:]
-for d in sorted(glob.glob(f'{V}/seeded/_staging/out_C*')):
+for d in sorted(glob.glob(f'{STAGING}/out_C*')):
     pid = os.path.basename(d)[4:]
     if only and pid not in only:
         continue
@@ -60,7 +62,7 @@ for d in sorted(glob.glob(f'{V}/seeded/_staging/out_C*')):
     results[pid] = r
     print(pid, 'confirmed' if r['confirmed'] else 'NOT CONFIRMED', 'caught' if r['caught'] else 'MISSED', r['demo_clean'], r['demo_patched'], missing[:2])
     if r['confirmed']:
-        dst = f'{V}/seeded/{pid}'
+        dst = f'{V}/seeded/{pid}{SUFFIX}'
         os.makedirs(dst, exist_ok=True)
         for f in ('patch.diff', 'demo.py', 'notes.md'):
             if os.path.exists(os.path.join(d, f)):
@@ -79,4 +81,5 @@ for d in sorted(glob.glob(f'{V}/seeded/_staging/out_C*')):
 for p in glob.glob(f'{V}/replays/*.json'):
     os.unlink(p)
 subprocess.run(f'git -C /repo worktree remove --force {WT}', shell=True, capture_output=True)
+os.makedirs('/tmp/mut', exist_ok=True)
 json.dump(results, open('/tmp/mut/confirm_results.json', 'w'), indent=1)
